@@ -497,6 +497,40 @@ def case_i(ctx, member):
 
 
 # ---------------------------------------------------------------------------
+# pool J: statements of OTHER families in front of every CPU the golden programs select: data, reservation and control statements
+# whose handlers are shared between code generators and set up per address-unit size / endianness of the current target
+
+J_STATEMENTS = [
+    '\tdb\t1,2', '\tdb\t"ab"', '\tdb\t3 dup (1)', '\tdb\t?', '\tdb\t2 dup (?)', '\tdw\t1', '\tdw\t?', '\tdw\t"ab"', '\tdd\t1', '\tdd\t1.5',
+    '\tdq\t1', '\tdq\t1.5', '\tdt\t1.0', '\tdn\t1,2,3', '\tds\t4', '\tdc.b\t1', '\tdc.w\t1', '\tdc.l\t1', '\tdc.b\t"ab"', '\tdc.w\t[3]1',
+    '\tdc.d\t1.5', '\tdc.x\t1.5', '\tdc.p\t1.5', '\tds.b\t3', '\tds.w\t0', '\tds.l\t1', '\tdc\t1', '\tdfs\t2', '\tbyt\t1', '\tadr\t1',
+    '\tfcb\t1', '\tfdb\t1', '\tfcc\t"ab"', '\trmb\t2', '\tdata\t1', '\tdata\t"ab"', '\tword\t1', '\tlong\t1', '\tbyte\t1', '\tfloat\t1.0',
+    '\tdouble\t1.0', '\tsingle\t1.0', '\textended\t1.0', '\tstring\t"ab"', '\tbss\t2', '\tres\t2', '\tspace\t2', '\tblock\t2', '\tzero\t2',
+    '\ttext\t"ab"', '\tascii\t"ab"', '\tasciz\t"ab"', '\tdefb\t1', '\tdefw\t1', '\tdefs\t2', '\tdefm\t"ab"', '\t.byte\t1', '\t.word\t1',
+    '\talign\t4', '\talign\t2,0', '\teven', '\tphase\t10', '\tsegment\tdata\n\tdb\t1', '\tsegment\tbitdata\n\tdb\t1', '\tsegment\tio\n\tds\t1',
+    'b1\tbit\t1,2', 's1\tsfr\t10h', 'p1\tport\t1', 'r1\treg\tr0', '\tltorg', '\tassume\tds:nothing', '\tbinclude\t"s.asm"', '\tpadding\ton\n\tdc.b\t1\n\tdc.w\t2',
+    '\tbigendian\ton\n\tdw\t1234h', '\tsupmode\ton', '\tfpu\ton', '\tpacking\ton\n\tdata\t"abc"', '\tend\tstart',
+]
+_POOL_J = None
+
+
+def pool_j():
+    global _POOL_J
+    if _POOL_J is None:
+        from . import c18
+        cpus = sorted({cpu.lower() for prog in corpus.programs() for cpu in c18.vocabulary(prog)})
+        _POOL_J = [('J', cpu, si) for cpu in cpus for si in range(len(J_STATEMENTS))]
+    return _POOL_J
+
+
+def case_j(ctx, member):
+    _, cpu, si = member
+    text = '\tcpu\t%s\nstart:\n%s\n' % (cpu, J_STATEMENTS[si])
+    case_small(ctx, member, text, 'J:%s:%d' % (cpu, si), claim=True)
+    ctx.out.sets['foreign_statement_cpus'].add(cpu)
+
+
+# ---------------------------------------------------------------------------
 # pool F: dasl
 
 N_DASL = 1500
@@ -542,11 +576,11 @@ _POOLS = None
 def pools():
     global _POOLS
     if _POOLS is None:
-        _POOLS = {'A': pool_a(), 'B': pool_b(), 'C': pool_c(), 'D': pool_d(), 'E': pool_e(), 'F': pool_f(), 'G': pool_g(), 'H': pool_h(), 'I': pool_i()}
+        _POOLS = {'A': pool_a(), 'B': pool_b(), 'C': pool_c(), 'D': pool_d(), 'E': pool_e(), 'F': pool_f(), 'G': pool_g(), 'H': pool_h(), 'I': pool_i(), 'J': pool_j()}
     return _POOLS
 
 
-QUICK_SAMPLE = {'A': 160, 'B': 1500, 'C': 100000, 'D': 300, 'E': 1500, 'F': 100, 'G': 1500, 'H': 100000, 'I': 4000}      # C and H: whole pool
+QUICK_SAMPLE = {'A': 160, 'B': 1500, 'C': 100000, 'D': 300, 'E': 1500, 'F': 100, 'G': 1500, 'H': 100000, 'I': 4000, 'J': 4000}      # C and H: whole pool
 
 
 def plan(tier, seed):
@@ -564,7 +598,7 @@ def plan(tier, seed):
             n = min(QUICK_SAMPLE[k], len(members))
             chosen = rng.sample(members, n)
         # group small members so that one worker call handles a batch (cheap cases)
-        bs = {'A': 1, 'B': 40, 'C': 10, 'D': 20, 'E': 40, 'F': 20, 'G': 40, 'H': 40, 'I': 40}[k]
+        bs = {'A': 1, 'B': 40, 'C': 10, 'D': 20, 'E': 40, 'F': 20, 'G': 40, 'H': 40, 'I': 40, 'J': 40}[k]
         for i in range(0, len(chosen), bs):
             cases.append({'pool': k, 'members': chosen[i:i + bs]})
     return cases
@@ -855,5 +889,7 @@ def run_case(case, ctx):
             case_h(ctx, member)
         elif k == 'I':
             case_i(ctx, member)
+        elif k == 'J':
+            case_j(ctx, member)
         out.sets['pools'].add(k)
     out.nontrivial = True
